@@ -5,10 +5,16 @@ Import ListNotations.
 Open Scope N_scope.
 
 (* timeout-now is only ever sent to another node that is a voter of the latest configuration,
-   reachable, and whose log matches the leader's whole log *)
+   reachable, and whose log matches the leader's whole log.
+   REPAIRED (third hypothesis added): "another node" rests on the requested target not being the leader
+   (onTransfer refuses that, transfer_validation) or on the leader keeping no replication to itself
+   (addReplication asserts that); tryTransfer itself does not test it.  Refuted without it in
+   TransferFacts.Refutations. *)
 Theorem transfer_target_eligible :
   forall opt s s' out t l,
-    try_transfer opt s = Done (s', out) -> st_ldr s = Some l -> In (MTimeoutNow t) (lo_msgs out) ->
+    try_transfer opt s = Done (s', out) -> st_ldr s = Some l ->
+    (ld_tr_target l <> st_nid s \/ find_repl (st_nid s) (ld_repls l) = None) ->
+    In (MTimeoutNow t) (lo_msgs out) ->
     t <> st_nid s /\ is_voter (st_latest s) t = true /\
     exists rp, find_repl t (ld_repls l) = Some rp /\ rp_match rp = st_lastidx s /\ rp_nocontact rp = false.
 Proof. exact TransferFacts.transfer_target_eligible. Qed.
@@ -48,12 +54,15 @@ Theorem transfer_failure_clears :
 Proof. exact TransferFacts.transfer_failure_clears. Qed.
 Print Assumptions transfer_failure_clears.
 
-(* requests that cannot succeed are refused at once and change nothing *)
+(* requests that cannot succeed are refused at once and change nothing.
+   REPAIRED ([target <> 0] now also guards [target = st_nid s]): target 0 means "any node"; a leader whose
+   own id is 0 (never the case: Config.validate) would not refuse it.  Refuted as first written in
+   TransferFacts.Refutations. *)
 Theorem transfer_validation :
   forall opt s tid target l,
     st_ldr s = Some l -> tid <> 0 ->
-    (ld_tr_active l = true \/ num_voters (st_latest s) = 1 \/ target = st_nid s \/
-     (target <> 0 /\ is_voter (st_latest s) target = false)) ->
+    (ld_tr_active l = true \/ num_voters (st_latest s) = 1 \/
+     (target <> 0 /\ (target = st_nid s \/ is_voter (st_latest s) target = false))) ->
     exists r, on_transfer opt s tid target = Done (s, mkOut [(tid, r)] []) /\ r <> RpNil.
 Proof. exact TransferFacts.transfer_validation. Qed.
 Print Assumptions transfer_validation.
